@@ -409,3 +409,42 @@ impl RefTreeNodes {
         }
     }
 }
+
+/// Calibration against the IETF `tree-validation` interop vectors: tree hashes of every node,
+/// resolutions, and validity of every vector tree.
+pub fn calibrate() -> Result<usize, String> {
+    let path = format!("{}/vectors/interop_tree_validation.json", crate::engine::VERIF_ROOT);
+    let s = std::fs::read_to_string(&path).map_err(|e| format!("{path}: {e}"))?;
+    let v: serde_json::Value = serde_json::from_str(&s).map_err(|e| e.to_string())?;
+    let mut checked = 0;
+    for (ti, tc) in v.as_array().ok_or("not an array")?.iter().enumerate() {
+        let suite = tc["cipher_suite"].as_u64().or_else(|| tc["cipher_suite"].as_str().and_then(|s| s.parse().ok())).ok_or("suite")? as u16;
+        let alg = HashAlg::for_suite(suite);
+        let bytes = hex::decode(tc["tree"].as_str().ok_or("tree")?).map_err(|e| e.to_string())?;
+        let t = RefTreeNodes::parse(&bytes).ok_or(format!("vector {ti}: tree does not parse"))?;
+        let hashes = tc["tree_hashes"].as_array().ok_or("tree_hashes")?;
+        let res = tc["resolutions"].as_array().ok_or("resolutions")?;
+        for (i, h) in hashes.iter().enumerate() {
+            if i >= t.nodes.len() {
+                break;
+            }
+            let want = hex::decode(h.as_str().unwrap_or("")).unwrap_or_default();
+            if t.tree_hash_of(alg, i as u32) != want {
+                return Err(format!("vector {ti}: tree hash of node {i} differs"));
+            }
+            let want_res: Vec<u32> = res[i].as_array().map(|a| a.iter().filter_map(|x| x.as_u64().map(|x| x as u32)).collect()).unwrap_or_default();
+            if t.resolution(i as u32) != want_res {
+                return Err(format!("vector {ti}: resolution of node {i}: got {:?} want {want_res:?}", t.resolution(i as u32)));
+            }
+        }
+        let problems = t.validate(alg);
+        if !problems.is_empty() {
+            return Err(format!("vector {ti}: valid tree reported invalid: {problems:?}"));
+        }
+        checked += 1;
+    }
+    if checked < 10 {
+        return Err("too few vectors".into());
+    }
+    Ok(checked)
+}
